@@ -10,7 +10,7 @@ repo = os.environ.get("VERIF_REPO", "/repo")
 src = sys.argv[1]
 keep = sys.argv[sys.argv.index("--keep") + 1] if "--keep" in sys.argv else None
 props = selftest.claimed_properties()
-ks = sorted(os.listdir(os.path.join(src, "twin_out")), key=lambda x: int(x) if x.isdigit() else 0)
+ks = sorted([k for k in os.listdir(os.path.join(src, "twin_out")) if k.isdigit()], key=int)
 
 
 def work(k):
